@@ -401,7 +401,7 @@ pub fn run(ctx: &Ctx) -> i32 {
     }
 
     // random depth 3
-    let cases = if ctx.thorough() { 300_000 } else { 20_000 };
+    let cases = if ctx.thorough() { 3_000_000 } else { 20_000 };
     let n = all.len();
     let strat = (0usize..12, 0..n, 0..n, 0..n, 0u64..4);
     let mut extra: Vec<Ty> = Vec::new();
